@@ -26,6 +26,7 @@ import (
 	"github.com/titpetric/vuego"
 	"pgregory.net/rapid"
 
+	"verif/internal/compose"
 	"verif/internal/ev"
 	"verif/internal/hx"
 	"verif/internal/kf"
@@ -258,6 +259,9 @@ func classify(c Case) (bool, []string) {
 }
 
 func replay(kind string, raw json.RawMessage) error {
+	if kind == compose.Kind {
+		return compose.Replay(raw)
+	}
 	return run.Decode(raw, check)
 }
 
@@ -269,6 +273,8 @@ func TestProp(t *testing.T) {
 	rec := ev.New(prop)
 	defer run.Finish(t, rec)
 	run.Witnesses(rec, prop, replay)
+	// cross-feature compositions checked against the shared reference interpreter
+	compose.Family(t, rec, "slot")
 	known := kf.Load()
 	ex := exclusions{
 		destructure: known.Open("C06-destructured-slot-props-empty"),
